@@ -181,8 +181,14 @@ fn parse_anchor(s: &str) -> std::result::Result<AtAnchor, String> {
     for (kw, before) in [("before", true), ("after", false)] {
         if let Some(rest) = s.strip_prefix(kw) {
             let rest = rest.trim();
+            // optional ` #N` after the quoted text: the N-th matching statement
+            let (rest, nth) = match rest.rsplit_once('#') {
+                Some((r0, n0)) if !n0.is_empty() && n0.trim().chars().all(|c| c.is_ascii_digit()) && (r0.trim_end().ends_with('"') || r0.trim_end().ends_with('`')) => (r0.trim_end(), Some(n0.trim().to_string())),
+                _ => (rest, None),
+            };
             if (rest.starts_with('"') && rest.ends_with('"') || rest.starts_with('`') && rest.ends_with('`')) && rest.len() >= 2 {
-                let key = norm_str(&rest[1..rest.len() - 1]).ok_or(format!("bad anchor text {s}"))?;
+                let mut key = norm_str(&rest[1..rest.len() - 1]).ok_or(format!("bad anchor text {s}"))?;
+                if let Some(n) = nth { key = format!("{key}#{n}"); }
                 return Ok(if before { AtAnchor::StmtBefore(key) } else { AtAnchor::StmtAfter(key) });
             }
         }
@@ -568,6 +574,36 @@ pub fn run(repo: &str, unit_path: &str, canary: bool) -> std::result::Result<Run
                     src_line = line;
                     rewrites.push(json!({"rule": "R12", "in": target, "file": file, "src_line": line,
                         "before": format!("then-block of `if let {pattxt} = ..` in {target}"), "after": "lifted into a function of its own (the bound variable and the locals it uses become parameters)"}));
+                } else if let Some(condtxt) = o.get("ifcond") {
+                    // R12d: the then-block of a plain `if <cond> { .. }` lifted into a function of its own (`ifcond=<cond>`, optional
+                    // `occ=<N>` for the N-th such statement in source order). Dropped: the condition itself (the contract of the lifted
+                    // function states it as a precondition where it matters) and everything around the block.
+                    let want = norm_str(condtxt).ok_or(format!("bad ifcond= text in {target}"))?;
+                    let nth_want: usize = o.get("occ").and_then(|x| x.parse().ok()).unwrap_or(1);
+                    struct FindIfC { want: String, nth: usize, seen: usize, found: Option<(Block, usize)> }
+                    impl<'ast> syn::visit::Visit<'ast> for FindIfC {
+                        fn visit_expr_if(&mut self, e: &'ast syn::ExprIf) {
+                            if self.found.is_none() && norm(&e.cond.to_token_stream()) == self.want {
+                                self.seen += 1;
+                                if self.seen == self.nth {
+                                    self.found = Some((e.then_branch.clone(), e.if_token.span.start().line));
+                                }
+                            }
+                            syn::visit::visit_expr_if(self, e);
+                        }
+                    }
+                    let mut fi = FindIfC { want, nth: nth_want, seen: 0, found: None };
+                    syn::visit::Visit::visit_block(&mut fi, &body);
+                    let (mut blk, line) = fi.found.ok_or(format!("lost-anchor ifcond `{condtxt}` in {target}"))?;
+                    if let Some(t) = o.get("tail") {
+                        let te: Expr = parse_str(t).map_err(|e| format!("bad tail= in {target}: {e}"))?;
+                        blk.stmts.push(Stmt::Expr(te, None));
+                    }
+                    body = blk;
+                    orig_text = norm(&body.to_token_stream());
+                    src_line = line;
+                    rewrites.push(json!({"rule": "R12", "in": target, "file": file, "src_line": line,
+                        "before": format!("then-block of `if {condtxt}` in {target}"), "after": "lifted into a function of its own (the locals it uses become parameters; the condition and the code around it are dropped)"}));
                 } else if let Some(pattxt) = o.get("forbody") {
                     // R12c: the body of a `for <pattern> in ..` loop lifted into a function of its own (`forbody=<pattern>`): what one
                     // iteration does to the element it is given. Dropped: the loop itself (which elements are visited, in which order).
@@ -613,6 +649,7 @@ pub fn run(repo: &str, unit_path: &str, canary: bool) -> std::result::Result<Run
                     named_iter: loops.iter().filter(|(_, v)| v.1.is_some()).map(|(k, _)| *k).collect(),
                     ats: ats.iter().enumerate().map(|(k, (a, _))| (a.clone(), k)).collect(),
                     placed: HashSet::new(),
+                    seen: HashMap::new(),
                     loops: vec![],
                 };
                 mark_fn_body(&mut mk, &mut body);
@@ -680,7 +717,7 @@ pub fn run(repo: &str, unit_path: &str, canary: bool) -> std::result::Result<Run
                     sigtxt.push_str(&format!(" {}", wc.to_token_stream()));
                 }
                 // a lifted closure has no signature of its own: the template supplies it on a contract line `sig: <text>`
-                if o.contains_key("closure") || o.contains_key("arm") || o.contains_key("iflet") || o.contains_key("forbody") {
+                if o.contains_key("closure") || o.contains_key("arm") || o.contains_key("iflet") || o.contains_key("forbody") || o.contains_key("ifcond") {
                     let pos = contract.iter().position(|l| l.trim_start().starts_with("sig:")).ok_or("closure= needs a `sig: fn name(..) -> (r: T)` line")?;
                     let l = contract.remove(pos);
                     sigtxt = l.trim_start()["sig:".len()..].trim().to_string();
@@ -769,6 +806,7 @@ pub fn run(repo: &str, unit_path: &str, canary: bool) -> std::result::Result<Run
                             if let Some(a) = o.get("arm") { rec["lifted"] = json!(format!("match arm `{a}`")); }
                             if let Some(a) = o.get("iflet") { rec["lifted"] = json!(format!("then-block of `if let {a}`")); }
                             if let Some(a) = o.get("forbody") { rec["lifted"] = json!(format!("body of `for {a} in ..`")); }
+                            if let Some(a) = o.get("ifcond") { rec["lifted"] = json!(format!("then-block of `if {a}`")); }
                             if let Some(c) = o.get("closure") { rec["lifted"] = json!(format!("closure #{c}")); }
                         }
                     }
